@@ -1,6 +1,6 @@
 // c19: conformance harness for specs/ResourceMerge (property C19).
 //
-//	c19 replay -mode merge|list|detect|env -edges F -rep N -out R
+//	c19 replay -mode merge|list|detect|env|default|new -edges F -rep N -out R   (default / new: see compose.go)
 //	    executes, for every TLC edge, the operand tuple / attribute list / detector sequence /
 //	    environment string of the successor state on the real sdk/resource package, projects what
 //	    it observes onto the specification's state space and compares with the successor's `out`.
@@ -782,6 +782,19 @@ func replay(args []string) {
 	fs.Parse(args)
 	res := vh.NewResult()
 	otel.SetErrorHandler(otel.ErrorHandlerFunc(func(err error) { handled = append(handled, err) }))
+	if *mode == "default" { // one subprocess per edge
+		replayDefault(*edges, *rep, res)
+		vh.Must(res.Write(*out))
+		return
+	}
+	var pr *probeT
+	if *mode == "new" {
+		clearEnv()
+		pr = probeBuiltins()
+		for _, n := range vh.SortedKeys(pr.why) {
+			res.Count("builtin_machine_specific:"+n, 1)
+		}
+	}
 	eachEdge(*edges, func(i int, e edge) {
 		res.Evaluations++
 		// the representative varies along the edge list so that one pass already mixes them
@@ -933,6 +946,8 @@ func replay(args []string) {
 			if i%1501 == 13 {
 				res.Sample(map[string]any{"s": to.S, "svc": to.Svc, "text": envText(to.S, r), "got": got, "adm": to.Adm})
 			}
+		case "new":
+			replayNewEdge(i, e, r, pr, res)
 		default:
 			vh.Must(fmt.Errorf("unknown mode %s", *mode))
 		}
@@ -1191,8 +1206,10 @@ func random(args []string) {
 	n := fs.Int("n", 200, "")
 	out := fs.String("out", "trace.ndjson", "")
 	resF := fs.String("res", "result.json", "")
+	nd := fs.Int("ndefault", 30, "")
 	fs.Parse(args)
 	r := rand.New(rand.NewSource(vh.Seed()))
+	clearEnv()
 	tw, err := vh.NewTraceWriter(*out)
 	vh.Must(err)
 	res := vh.NewResult()
@@ -1342,8 +1359,16 @@ func random(args []string) {
 				}
 			}
 		})
+		// ---- option lists over the built-in options (every option also observed standalone)
+		guard("new", sc, func() {
+			for j := 0; j < 2; j++ {
+				randomNew(r, sc, tw, res, pool, schemas)
+			}
+		})
 		res.Evaluations++
 	}
+	// ---- Default() under random environments (one subprocess each)
+	randomDefaults(r, *nd, tw, res)
 	vh.Must(tw.Close())
 	res.Count("trace_lines", tw.N)
 	vh.Must(res.Write(*resF))
@@ -1359,6 +1384,8 @@ func main() {
 		replay(os.Args[2:])
 	case "random":
 		random(os.Args[2:])
+	case "default-child":
+		defaultChild()
 	default:
 		os.Exit(3)
 	}
